@@ -421,8 +421,8 @@ fn cmd_w1(args: &Args) -> i32 {
     let required: &[&str] = match prop {
         Prop::C02 => &["finish_after_partial", "finish_after_exhaustion", "step_after_exhaustion", "zero_frame_generator", "generator_moved_across_tasks", "generator_dropped_midstream", "mixed_buffer_sizes", "engine_dropped_while_generators_live", "process_with_1000_or_more_api_calls"],
         Prop::C03 => &["same_key_on_two_tasks", "same_key_on_two_engine_slots", "clone", "failed_call:err", "generator_waveform_registered", "engine_dropped_while_generators_live", "fresh_process_reference_checked", "process_with_1000_or_more_api_calls", "process_with_256_or_more_distinct_waveform_keys"],
-        Prop::C19 => &["setw:valid", "setw:wrong_length", "setw:wrong_length_good_sum", "setw:bad_sum", "setw:nan", "rejected_update", "synth_vs_twin", "vsnew:empty", "vsnew:metadata", "vsnew:ok", "vsnew_variant:0", "vsnew_variant:1", "vsnew_variant:2", "vsnew_mutated_first_voice", "vsnew_mutated_third_or_later_voice", "reload_voice_set", "clone_from"],
-        Prop::C20 => &["clamp_applied:speed", "clamp_applied:alpha", "clamp_applied:beta", "clamp_applied:msd_threshold", "clamp_applied:gv_weight", "clamp_applied:sampling_frequency", "clamp_applied:fperiod", "clone", "clone_from"],
+        Prop::C19 => &["setw:valid", "setw:wrong_length", "setw:wrong_length_good_sum", "setw:bad_sum", "setw:nan", "setw:inf", "rejected_update", "synth_vs_twin", "vsnew:empty", "vsnew:metadata", "vsnew:ok", "vsnew_variant:0", "vsnew_variant:1", "vsnew_variant:2", "vsnew_mutated_first_voice", "vsnew_mutated_third_or_later_voice", "reload_voice_set", "clone_from", "weights_on_stream_index_3_or_later"],
+        Prop::C20 => &["clamp_applied:speed", "clamp_applied:alpha", "clamp_applied:beta", "clamp_applied:msd_threshold", "clamp_applied:gv_weight", "clamp_applied:sampling_frequency", "clamp_applied:fperiod", "clone", "clone_from", "per_stream_setter_on_stream_index_3_or_later"],
     };
     let mut dead = Vec::new();
     for p in required {
